@@ -24,12 +24,12 @@
 #include "rep.h"
 
 long long* gp_key;
-int g_g, g_i, g_j, g_m0, g_t0, g_s0, g_n0, g_f0, v_a, v_dat;
+int g_g, g_i, g_j, g_t0, g_s0, g_n0, g_f0, v_a, v_dat;
 long long v_key, v_cell, v_key2;
 
 static void havoc_ghosts(void)
 {
-   g_g = nondet_int(); g_i = nondet_int(); g_j = nondet_int(); g_m0 = nondet_int(); g_t0 = nondet_int(); g_s0 = nondet_int();
+   g_g = nondet_int(); g_i = nondet_int(); g_j = nondet_int(); g_t0 = nondet_int(); g_s0 = nondet_int();
    g_n0 = nondet_int(); g_f0 = nondet_int(); v_a = nondet_int(); v_dat = nondet_int();
    v_key = nondet_ll(); v_cell = nondet_ll(); v_key2 = nondet_ll();
 }
@@ -113,12 +113,10 @@ static int inv_ghosts(clp item, clp key, cip rank, int themax, int sz, int nm, i
 #ifdef EXACT_ALLOC
 #define ALLOC_T TM
 #define ALLOC_R rmax
-#define ALLOC_NEW(n) (n)
 #define ENSURES(e) __CPROVER_ensures(1)
 #else
 #define ALLOC_T CAP
 #define ALLOC_R CAP
-#define ALLOC_NEW(n) ((2 * CAP + 1) * sizeof(long long))
 #define ENSURES(e) __CPROVER_ensures(e)
 #endif
 #define FRESH_SCALARS (__CPROVER_is_fresh(themax, sizeof(int)) && __CPROVER_is_fresh(thesize, sizeof(int)) \
@@ -129,40 +127,6 @@ static int inv_ghosts(clp item, clp key, cip rank, int themax, int sz, int nm, i
    && __CPROVER_is_fresh(rkey, ALLOC_R * sizeof(long long)) && __CPROVER_is_fresh(rrank, ALLOC_R * sizeof(int)))
 /* the post-state arrays are blocks of max() cells (one cell if max() == 0: spx_realloc(p, 0) allocates one element) */
 #define BLOCKS_OK (__CPROVER_rw_ok(RET, (TM > 0 ? TM : 1) * sizeof(long long)) && __CPROVER_rw_ok(gp_key, (TM > 0 ? TM : 1) * sizeof(long long)))
-
-/* ISO C realloc (successful), as a contract: a fresh block of n bytes whose first min(n, old size) bytes equal the old
- * block's (stated for each of the at most CAP old cells); the old block is released.  g_m0 = length of the old block in
- * 8-byte cells, checked against the real object size at the call. */
-#define RC(i) (!((i) < g_m0 && (size_t)(i) * sizeof(long long) < n) \
-   || ((const long long*)__CPROVER_return_value)[i] == __CPROVER_old(((const long long*)p)[(i) < g_m0 ? (i) : 0]))
-void* verif_realloc(void* p, size_t n)
-__CPROVER_requires(0 < n && n <= (2 * CAP + 1) * sizeof(long long) && __CPROVER_is_freeable(p))
-__CPROVER_requires(0 < g_m0 && g_m0 <= CAP && __CPROVER_OBJECT_SIZE(p) == g_m0 * sizeof(long long) && __CPROVER_r_ok(p, g_m0 * sizeof(long long)))
-__CPROVER_assigns()
-__CPROVER_frees(p)
-__CPROVER_ensures(__CPROVER_is_fresh(__CPROVER_return_value, ALLOC_NEW(n)))
-__CPROVER_ensures(REP_ALL(RC))
-;
-
-/* malloc (successful), as a contract: a fresh block of n bytes */
-void* verif_malloc(size_t n)
-__CPROVER_requires(0 < n && n <= (2 * CAP + 1) * sizeof(long long))
-__CPROVER_assigns()
-__CPROVER_ensures(__CPROVER_is_fresh(__CPROVER_return_value, ALLOC_NEW(n)))
-;
-
-/* ISO C memcpy as a contract (CBMC's library model of a copy of symbolic length between blocks of symbolic size exhausts
- * memory): n is a whole number of 8-byte cells; both ranges valid; the destination range receives the source range
- * (stated for each of the at most CAP cells); nothing else is written. */
-#define MC(i) (!((size_t)(i) * sizeof(long long) < n) \
-   || ((const long long*)dst)[i] == __CPROVER_old(((const long long*)src)[(size_t)(i) * sizeof(long long) < n ? (i) : 0]))
-void* verif_memcpy(void* dst, const void* src, size_t n)
-__CPROVER_requires(n % sizeof(long long) == 0 && n <= CAP * sizeof(long long))
-__CPROVER_requires(__CPROVER_r_ok(src, n) && __CPROVER_w_ok(dst, n) && !__CPROVER_same_object(dst, src))
-__CPROVER_assigns(__CPROVER_object_upto(dst, n))
-__CPROVER_ensures(__CPROVER_return_value == dst)
-__CPROVER_ensures(REP_ALL(MC))
-;
 
 /* ---------------------------------------------------------------------------------------------------------------- */
 #ifdef INST_reMax
@@ -178,26 +142,16 @@ long long* w_reMax(long long* item, long long* key, int* themax, int* thesize, i
 __CPROVER_requires(__CPROVER_is_fresh(delta, sizeof(long)))
 __CPROVER_requires(FRESH_THIS && -2 * CAP <= newmax && newmax <= 2 * CAP)
 __CPROVER_requires(T_INV_ALL)
-__CPROVER_requires(g_m0 == ALLOC_T && g_t0 == TM && g_s0 == SZ && g_n0 == NM && g_f0 == FF)
+__CPROVER_requires(g_t0 == TM && g_s0 == SZ && g_n0 == NM && g_f0 == FF)
 __CPROVER_requires(!(0 <= g_i && g_i < SZ) || (v_a == HI32(item[g_i]) && v_dat == LO32(item[g_i])))
 __CPROVER_requires(!(0 <= g_g && g_g < NM) || v_key == key[g_g])
 __CPROVER_assigns(gp_key, __CPROVER_object_whole(item), __CPROVER_object_whole(key), *themax, *thesize, *thenum, *firstfree, *delta)
 __CPROVER_frees(item, key)
-#ifndef NO_E1
 ENSURES(*delta == (long)RET - (long)item)
-#endif
-#ifndef NO_E2
 ENSURES(TM == NEWMAX && SZ == g_s0 && NM == g_n0 && FF == MAPEND(g_f0) && BLOCKS_OK)
-#endif
-#ifndef NO_E3
 ENSURES(!(0 <= g_i && g_i < g_s0) || (LO32(RET[g_i]) == v_dat && HI32(RET[g_i]) == MAPEND(v_a)))
-#endif
-#ifndef NO_E4
 ENSURES(!(0 <= g_g && g_g < g_n0) || gp_key[g_g] == v_key)
-#endif
-#ifndef NO_E5
 ENSURES(inv_ghosts(RET, gp_key, rank, TM, SZ, NM, FF, g_g, g_i, g_j))
-#endif
 ;
 void h_reMax(void)
 {
@@ -232,7 +186,7 @@ long long* w_assign(long long* item, long long* key, int* themax, int* thesize, 
 __CPROVER_requires(FRESH_THIS && FRESH_RHS && __CPROVER_is_fresh(ret_is_this, sizeof(int)))
 __CPROVER_requires(T_INV_ALL)
 __CPROVER_requires(R_INV_ALL)
-__CPROVER_requires(g_m0 == ALLOC_T && g_t0 == TM && g_s0 == SZ && g_n0 == NM && g_f0 == FF)
+__CPROVER_requires(g_t0 == TM && g_s0 == SZ && g_n0 == NM && g_f0 == FF)
 COPY_REQUIRES
 __CPROVER_requires(!(0 <= g_i && g_i < SZ) || v_cell == item[g_i])
 __CPROVER_requires(!(0 <= g_g && g_g < NM) || v_key2 == key[g_g])
